@@ -186,10 +186,107 @@ def h_str_fill(i: int, unicode_flag: bool) -> int:
     return _judge(WRAP, accepted, out, full)
 
 
+# ---------------------------------------------------------------------------------------------- the rule has no memory
+
+RKEYS = ["items", b"items", "slabs", "a b", "k" * 248, "k\n", ""]      # legal, legal only without prefix, illegal, empty
+RPREFIX = [b"", b"ns:"]
+RWARM = ("none", "stats", "get", "set", "delete", "get_many", "incr")
+RFINAL = ("get", "set", "delete", "touch", "get_many", "gets", "incr")
+NWARM = SHARD.get("nwarm", 1)
+
+
+def _rdo(c, what, key):
+    if what == "stats":
+        return c.stats(key)
+    if what == "get":
+        return c.get(key)
+    if what == "gets":
+        return c.gets(key)
+    if what == "set":
+        return c.set(key, b"v", noreply=False)
+    if what == "delete":
+        return c.delete(key, noreply=False)
+    if what == "touch":
+        return c.touch(key, 5, noreply=False)
+    if what == "incr":
+        return c.incr(key, 1, noreply=False)
+    if what == "get_many":
+        return c.get_many([key])
+    raise AssertionError(what)
+
+
+def h_reuse(w1: int, k1: int, w2: int, k2: int, pf: int, fin: int, k3: int) -> int:
+    """
+    What a client transmits for a key is prefix + encoded key whatever the same client object processed before: two
+    warm-up calls (stats with an argument, reads, writes; legal and illegal keys) and then one key command whose wire
+    form is read off the reference server's parsed command log.
+    pre: 0 <= w1 < len(RWARM) and 0 <= w2 < len(RWARM)
+    pre: 0 <= k1 < len(RKEYS) and 0 <= k2 < len(RKEYS) and 0 <= k3 < len(RKEYS)
+    pre: 0 <= pf < len(RPREFIX)
+    pre: 0 <= fin < len(RFINAL)
+    post: _ != 0
+    """
+    from harness.common import concretize
+    from harness import ops
+    from vkit.net import NetSim, notrace
+    if NWARM < 2 and (w2 != 0 or k2 != 0):
+        return skip("one-warm-up-call-in-this-shard")
+    warm = [(RWARM[concretize(w1, 0, len(RWARM) - 1)], RKEYS[concretize(k1, 0, len(RKEYS) - 1)])]
+    if NWARM >= 2:
+        warm.append((RWARM[concretize(w2, 0, len(RWARM) - 1)], RKEYS[concretize(k2, 0, len(RKEYS) - 1)]))
+    prefix = RPREFIX[concretize(pf, 0, len(RPREFIX) - 1)]
+    final = RFINAL[concretize(fin, 0, len(RFINAL) - 1)]
+    key = RKEYS[concretize(k3, 0, len(RKEYS) - 1)]
+    with notrace():
+        _clock.fresh()
+        servers, _ = ops.fresh_servers(1)
+        srv = servers[ops.ADDR1]
+        net = NetSim(servers, None)
+        c = ops.make_client({"client": "client", "pooled": "pooled1", "hash": "hash1"}[WRAP], net, key_prefix=prefix,
+                            default_noreply=False)
+        n = 0
+        for what, k in warm:
+            if what == "none" or (what == "stats" and WRAP == "hash"):
+                continue
+            n += 1
+            net.begin_call(n)
+            try:
+                _rdo(c, what, k)
+            except Exception:
+                pass          # illegal keys, misses that raise: only the state they leave behind matters here
+        srv.cmdlog.clear()
+        net.begin_call(n + 1)
+        full = prefix + (key if isinstance(key, bytes) else key.encode("ascii"))
+        legal = legal_wire_key(full)
+        try:
+            _rdo(c, final, key)
+            raised = None
+        except MemcacheIllegalInputError:
+            raised = "illegal"
+        except Exception as e:
+            raised = type(e).__name__
+        if net.violations:
+            return viol(WRAP, warm, "then", final, repr(key), ":", net.violations[0])
+        sent = [k for cmd in srv.cmdlog for k in cmd.keys]
+        if not legal:
+            if raised != "illegal" or sent:
+                return viol(WRAP, "prefix", prefix, "after", warm, ":", final, repr(key), "is illegal but", raised, "sent", sent)
+            return ok("rejected")
+        if raised == "illegal":
+            return viol(WRAP, "prefix", prefix, "after", warm, ":", final, repr(key), "is legal but was rejected")
+        if sent != [full]:
+            return viol(WRAP, "prefix", prefix, "after", warm, ":", final, repr(key), "transmitted", sent, "expected", [full])
+        return ok("transmitted")
+
+
 def shards(tier):
     S = []
     thorough = tier == "thorough"
     maxk = 4 if thorough else 3
+    for wrap in ("client", "pooled", "hash"):
+        S.append(dict(fn="h_reuse", shard=dict(wrap=wrap, nwarm=1), timeout=400, weight=3))
+        if thorough:
+            S.append(dict(fn="h_reuse", shard=dict(wrap=wrap, nwarm=2), timeout=3000, weight=3))
     for kl in range(0, maxk + 1):
         for pl in range(0, 3):
             if kl + pl > (5 if thorough else 4) or kl + pl == 0:
@@ -234,7 +331,10 @@ BOUNDS = {
              "Hash wrappers; total length 248..252 (prefix 0/1/125) with 3 symbolic bytes at first/middle/last position; "
              "str keys of 1..2 symbolic code points (whole Unicode range minus surrogates); long str keys = 1 code point chosen by a symbolic "
              "index among 12 width-class representatives + 1-/2-/3-byte filler code points with 246..251 filler bytes; "
-             "str keys of 1 symbolic code point behind a 246..250-byte concrete prefix",
+             "str keys of 1 symbolic code point behind a 246..250-byte concrete prefix; no memory: 1 warm-up call (2 in the thorough tier) "
+             "(7 kinds incl. stats with an argument x 7 keys, symbolic indices) then one of 7 key commands on one of 7 keys "
+             "with prefix {none, 'ns:'} through Client / PooledClient / HashClient over the reference server: wire key == "
+             "prefix + key, illegal keys rejected with nothing sent",
     "thorough": "as quick with key length up to 4 (|key|+|prefix|<=5), wrappers up to length 3, boundary through all four "
                 "wrappers and prefix 247, str keys of 3 code points, "
                 "2 symbolic code points behind a 242..249-byte concrete prefix",
